@@ -26,19 +26,45 @@ theorem foldl_merge (dst : Nat → List Nat) (fs : List (List Rule)) (acc : Buck
     simp only [List.foldl_cons, ih, merge, loadFile_apply, List.flatten_cons, List.filter_append,
       List.append_assoc]
 
-theorem runRules_single (multi : Bool) (cb : Rule → List Bool) (rules : List Rule)
-    (h : ∀ r ∈ rules, (cb r).length ≤ 1) : runRules multi cb rules = pick multi cb rules := by
+theorem reportsOf_of_not_accepts (cb : Rule → List Bool) (r : Rule) (h : accepts cb r = false) :
+    reportsOf cb r = [] := by
+  unfold accepts at h
+  unfold reportsOf
+  have : (cb r).filter id = [] := by
+    rw [List.filter_eq_nil_iff]
+    intro b hb
+    have := List.any_eq_false.mp h b hb
+    simpa using this
+  simp [this]
+
+/-- the rule loop (after the repair) is the reference, for every callback sequence -/
+theorem runRules_eq_pick (multi : Bool) (cb : Rule → List Bool) (rules : List Rule) :
+    runRules multi cb rules = pick multi cb rules := by
   induction rules with
   | nil => cases multi <;> simp [runRules, pick]
   | cons r rs ih =>
+    simp only [runRules, ih]
+    cases hacc : accepts cb r with
+    | false =>
+      have h0 := reportsOf_of_not_accepts cb r hacc
+      have hany : (cb r).any id = false := hacc
+      unfold reportsOf at h0
+      cases multi <;> simp [pick, hacc, hany, h0, List.find?_cons, List.filter_cons]
+    | true =>
+      have hany : (cb r).any id = true := hacc
+      cases multi <;> simp [pick, hacc, hany, reportsOf, List.find?_cons, List.filter_cons]
+
+/-- the pinned loop agrees with the repaired one when no rule gets more than one callback per node -/
+theorem runRulesAsIs_single (multi : Bool) (cb : Rule → List Bool) (rules : List Rule)
+    (h : ∀ r ∈ rules, (cb r).length ≤ 1) : runRulesAsIs multi cb rules = runRules multi cb rules := by
+  induction rules with
+  | nil => simp [runRules, runRulesAsIs]
+  | cons r rs ih =>
     have ih' := ih (fun r hr => h r (by simp [hr]))
     have hr := h r (by simp)
-    simp only [runRules, ih']
-    -- the single callback, if any
+    simp only [runRules, runRulesAsIs, ih']
     match hcb : cb r, hr with
-    | [], _ =>
-      cases multi <;> simp [pick, accepts, hcb, List.find?_cons, List.filter_cons]
-    | [b], _ =>
-      cases b <;> cases multi <;> simp [pick, accepts, hcb, List.find?_cons, List.filter_cons]
+    | [], _ => simp
+    | [b], _ => cases b <;> simp
 
 end Rules
